@@ -393,7 +393,8 @@ Definition is_rate (a : action) : bool := match a with ARate _ _ => true | _ => 
    anybody and leaves the accumulated delay alone *)
 Lemma no_rate_no_delay : forall acts s,
   forallb (fun a => negb (is_rate a)) acts = true ->
-  snd (exec s acts) = [] /\ wd (rs (fst (exec s acts))) = wd (rs s).
+  snd (exec s acts) = [] /\ wd (rs (fst (exec s acts))) = wd (rs s) /\
+  lastr (rs (fst (exec s acts))) = lastr (rs s).
 Proof.
   induction acts as [|a acts IH]; intros s H.
   - cbn. auto.
@@ -404,7 +405,7 @@ Proof.
     + cbn [step]. destruct (tx s) as [|e q].
       * cbn [fst snd]. apply IH. exact Hr.
       * cbn [fst snd]. specialize (IH (mkS (mkR (wd (rs s)) now (lastr (rs s))) q ((now, e) :: wire s)) Hr).
-        cbn [rs wd] in IH. exact IH.
+        cbn [rs wd lastr] in IH. exact IH.
 Qed.
 
 (* AllowFlood, Cmd.Ping, Cmd.Pong: the entry points contribute no rate call *)
@@ -812,7 +813,9 @@ Lemma entry_point_not_rated : forall gf allow r now e s,
   snd (exec s (entry_actions gf allow r now e)) = [] /\
   wd (rs (fst (exec s (entry_actions gf allow r now e)))) = wd (rs s).
 Proof.
-  intros gf allow r now e s H. apply no_rate_no_delay.
+  intros gf allow r now e s H.
+  cut (forallb (fun a => negb (is_rate a)) (entry_actions gf allow r now e) = true).
+  { intros F. destruct (no_rate_no_delay _ s F) as (A & B & _). auto. }
   destruct H as [H|H]; subst; [reflexivity|destruct r; reflexivity].
 Qed.
 
@@ -820,3 +823,33 @@ Example entry_point_held_sat :
   entry_route (bs "SendRaw") = Some ViaSend /\ entry_route (bs "Pong") = Some ViaWrite /\
   snd (exec (sys0 (mkR (30 * second) 0 0)) (entry_actions true false ViaSend 0 (mkE 0 0 30))) = [cost 30].
 Proof. vm_compute. auto. Qed.
+
+(* ---- the limiter state is framed ----------------------------------------------------- *)
+(* Everything the client does — Sends of any goroutine, keep-alives, replies written or
+   sent by handlers of inbound traffic, sendLoop deliveries — is a schedule of ARate, AEnq,
+   ADeliver.  Over any such schedule with a monotone clock the accumulated delay is at
+   least what it was, plus everything charged, minus the real time elapsed: nothing but
+   the passing of time forgives. *)
+Lemma charged_nonneg : forall acts, lens_ok acts -> 0 <= charged acts.
+Proof.
+  induction acts as [|a acts IH]; intros H; [cbn; lia|].
+  inversion H as [|? ? Ha Hr]; subst. specialize (IH Hr).
+  cbn [charged fold_right]. fold (charged acts). destruct a as [t x|x|t]; try lia.
+  pose proof (cost_pos (ev_len x) Ha). lia.
+Qed.
+
+Lemma limiter_frame : forall acts now e r0,
+  0 <= wd r0 -> lens_ok acts ->
+  monotone (Z.max (last r0) (lastr r0)) (acts ++ [ARate now e]) ->
+  let s' := fst (exec (sys0 r0) acts) in
+  let T0 := Z.max (last r0) (lastr r0) in
+  wd r0 + charged acts - (Z.max (last (rs s')) (lastr (rs s')) - T0) <= wd (rs s') /\
+  Z.max (last (rs s')) (lastr (rs s')) <= now /\
+  wd r0 - (now - T0) <= wd (rs s').
+Proof.
+  intros acts now e r0 Hw Hl Hm s' T0.
+  pose proof (hold_inv now e T0 acts (sys0 r0) T0 (wd r0) Hm Hl) as G.
+  cbn [sys0 rs] in G. specialize (G Hw ltac:(subst T0; lia) ltac:(subst T0; lia) ltac:(subst T0; lia)).
+  cbv zeta in G. destruct G as (G1 & G2 & G3). fold s' in G1, G2, G3.
+  pose proof (charged_nonneg acts Hl). repeat split; try assumption; lia.
+Qed.
